@@ -544,7 +544,10 @@ def check_C16(prop, tier, only):
 def check_C18(prop, tier, only):
     import grids
     jobs = check_C18_explore_jobs(tier)
-    return run_explore_check(prop, tier, jobs, only, enum_jobs=grids.jobs_minblock(tier, strict_next=True), note=NOTE_BFS +
+    c = cfgs_for(tier)
+    ej = grids.jobs_minblock(tier, strict_next=True) + [J("h_nextcap", cfg, "", name=f"nextcap[{cfg}]") for cfg in c]
+    return run_explore_check(prop, tier, jobs, only, enum_jobs=ej, note=NOTE_BFS +
+                             "next_capacity() sweep: every pool type x node size x EVERY block size of a range: the announced next_capacity() equals the capacity a growth adds; " +
                              "M-counters: capacity_left / pool_capacity_left change by exactly the nodes or bytes an operation takes or returns, next_capacity equals the size of "
                              "the next upstream request, M-maxima: no request above max_node_size/max_array_size/max_alignment succeeds; plus the exhaustive "
                              "min_block_size grid (node size x node count x pool type; byte sizes for stacks)")
